@@ -44,6 +44,9 @@ def plan(tier, seed):
         # accumulated costs across 2**16 (long lists of long strings, truncated / extended / cut: cheap to diff, large to cost)
         specs.append({"stratum": "json-big-costs", "family": "json", "n": 5 if q else 30, "k": k, "clean": True, "bigcost": True,
                       "case_timeout": 240, "shrink": False})
+    for k in range(2 if q else 8):
+        specs.append({"stratum": "json-deep-and-wide", "family": "json", "n": 10 if q else 80, "k": k, "clean": True, "deepwide": True,
+                      "case_timeout": 240, "shrink": False})
     per_f = 250 if q else 5000
     for fam in ["basic", "xml", "csv", "plist", "dataclass", "pyobj"]:
         specs.append({"stratum": f"family-{fam}", "family": fam, "n": per_f, "k": 0, "clean": True})
